@@ -67,7 +67,11 @@ were read; the DI voucher only after the session's header and certificate chain 
 theorem code_facts :
     Fdo.Facts.allBefore "TO2Server.to2Done2" ["Equal", "ReplacementHmac", "Voucher", "RvInfo", "ReplacementGUID", "ownerKey"] "ReplaceVoucher" = true ∧
     Fdo.Facts.allBefore "DIServer.diDone" ["IncompleteVoucherHeader", "DeviceCertChain"] "AddVoucher" = true ∧
-    Fdo.Facts.before "DIServer.setCredentials" "RvInfo" "SetIncompleteVoucherHeader" = true := by decide +kernel
+    Fdo.Facts.before "DIServer.setCredentials" "RvInfo" "SetIncompleteVoucherHeader" = true ∧
+    -- sqlite ReplaceVoucher: insert, then delete; a second delete (the roll-back) under a context made from Background
+    Fdo.Facts.before "DB.ReplaceVoucher" "AddVoucher" "remove" = true ∧
+    Fdo.Facts.atLeast "DB.ReplaceVoucher" "remove" 2 = true ∧
+    Fdo.Facts.before "DB.ReplaceVoucher" "AddVoucher" "Background" = true := by decide +kernel
 
 open Fdo.Proto.Server in
 /-- **The owner's voucher store is untouched before Done is accepted** (request-level server
